@@ -191,15 +191,16 @@ Definition all_members (L : list (vote * validator)) : Prop := Forall (fun x => 
 Lemma sortition_ok_inv : forall mk seed index step proof sub thr stake total,
   verify_sortition O mk seed index step proof sub thr stake total = Some true ->
   exists h j, o_vrf O mk seed step index proof = Some h /\ o_seats O h stake thr total = Some j
-              /\ (0 < j)%Z /\ u32_of_Z j = sub.
+              /\ (0 < j)%Z /\ u32_of_Z j = sub /\ o_vrf_crash O proof = false.
 Proof.
   intros until total. unfold verify_sortition.
   destruct (total =? 0); [discriminate|].
+  destruct (o_vrf_crash O proof) eqn:ECr; [discriminate|].
   destruct (o_vrf O mk seed step index proof) as [h|] eqn:EH; [|discriminate].
   destruct (o_seats O h stake thr total) as [j|] eqn:ES; [|discriminate].
   destruct (j <=? 0)%Z eqn:EJ; [discriminate|].
   destruct (u32_of_Z j =? sub) eqn:EU; cbn; [|discriminate].
-  intros _. exists h, j. split; [reflexivity|]. split; [exact ES|]. split; [lia|]. apply N.eqb_eq. exact EU.
+  intros _. exists h, j. split; [reflexivity|]. split; [exact ES|]. split; [lia|]. split; [apply N.eqb_eq; exact EU|reflexivity].
 Qed.
 
 Theorem votes_accept : forall V c votes asig step isPos,
@@ -226,7 +227,7 @@ Proof.
     + rewrite Forall_forall. intros x Hx.
       destruct (HF x Hx) as [(bk & mk & Hr & _ & Hs & _) _].
       apply recover_main in Hr as (Hn & Hb & Hm).
-      apply sortition_ok_inv in Hs as (h & j & Hv & Hj & Hpos & Hu).
+      apply sortition_ok_inv in Hs as (h & j & Hv & Hj & Hpos & Hu & _).
       split; [exact Hn|]. exists mk, bk, h, j. repeat split; auto.
       destruct (H4 x Hx) as (bk' & Hb' & Hin). rewrite Hb in Hb'. inversion Hb'; subst bk'.
       eapply bls_sound; eauto.
